@@ -246,9 +246,18 @@ func roundTrip(kind string, recs []rec, api string) {
 	}
 	defer d.Close()
 	n := 0
+	// results handed out earlier must survive later rows (history): they are
+	// looked at again after the last row
+	type keptRow struct {
+		n int
+		g geom.Geom
+		f map[string]string
+	}
+	var kept []keptRow
 	for {
 		var g geom.Geom
 		var gi int
+		var keepF map[string]string
 		var gs string
 		var gf float64
 		more := false
@@ -279,6 +288,7 @@ func roundTrip(kind string, recs []rec, api string) {
 					gs = recs[n%len(recs)].a.S
 				}
 			} else if more {
+				keepF = f
 				gi, _ = strconv.Atoi(strings.TrimSpace(f["IVAL"]))
 				gs = f["sval"]
 				gf, _ = strconv.ParseFloat(strings.TrimSpace(f["FVal"]), 64)
@@ -296,7 +306,18 @@ func roundTrip(kind string, recs []rec, api string) {
 			rep.Violation(fmt.Sprintf("%s|%s|geometry-differs", api, kind), detail(n, fmt.Sprintf("%s: got %#v want %#v", df, g, want)))
 		}
 		judgeAttr(api, kind, recs[n].a, gi, gs, gf, detail(n, fmt.Sprintf("got attrs %d %q %v", gi, gs, gf)))
+		kept = append(kept, keptRow{n, g, keepF})
 		n++
+	}
+	for _, k := range kept {
+		if df := geomgen.Diff(expected(recs[k.n].g), k.g, true); df != "" {
+			rep.Violation(fmt.Sprintf("%s|%s|geometry-changed-by-later-rows", api, kind), detail(k.n, df))
+		}
+		if k.f != nil {
+			gi, _ := strconv.Atoi(strings.TrimSpace(k.f["IVAL"]))
+			gf, _ := strconv.ParseFloat(strings.TrimSpace(k.f["FVal"]), 64)
+			judgeAttr(api+"|after-later-rows", kind, recs[k.n].a, gi, k.f["sval"], gf, detail(k.n, fmt.Sprintf("attribute map of row %d read again after the last row: %v", k.n, k.f)))
+		}
 	}
 	if err := d.Error(); err != nil {
 		rep.Violation(fmt.Sprintf("%s|%s|decoder-error", api, kind), detail(n, err.Error()))
@@ -317,7 +338,7 @@ func main() {
 		return
 	}
 	rep = report.New("C16", tier, "model_checking")
-	rep.Rule = "E1: for each of Point, MultiPoint, LineString, MultiLineString, Polygon, *Bounds: every shape with 1..3 parts/rings x 1..3 vertices (rings closed and unclosed, both windings by rotation of the pattern list) with coordinates from 19 finite float64 patterns, as single records, ordered pairs and triples of a reduced shape list, and the empty file; attributes int {0,-1,+-999999999,9999999999,42}, string {empty, 1 byte, 50 bytes, UTF-8, inner spaces, leading/trailing space}, float {0,-1.5,1/3,1e10,123456789.1234567891,-1e-10}; multi-line strings also with empty parts after the first; the struct API (tags/names in different letter case between writer and reader; for points also a record type whose last field is the string), the field API, and the field API with geometry-only reads (no field names) on every other record. Oracle: same number and order of records, bit-identical coordinates part by part (unclosed rings closed, boxes as 5-vertex rectangles), ints equal, strings equal, floats within 1e-10. Non-trivial = files with >= 2 records or >= 2 parts."
+	rep.Rule = "E1: for each of Point, MultiPoint, LineString, MultiLineString, Polygon, *Bounds: every shape with 1..3 parts/rings x 1..3 vertices (rings closed and unclosed, both windings by rotation of the pattern list) with coordinates from 19 finite float64 patterns, as single records, ordered pairs and triples of a reduced shape list, and the empty file; attributes int {0,-1,+-999999999,9999999999,42}, string {empty, 1 byte, 50 bytes, UTF-8, inner spaces, leading/trailing space}, float {0,-1.5,1/3,1e10,123456789.1234567891,-1e-10}; multi-line strings also with empty parts after the first; the struct API (tags/names in different letter case between writer and reader; for points also a record type whose last field is the string), the field API, and the field API with geometry-only reads (no field names) on every other record. Oracle: same number and order of records, every returned geometry and attribute map still intact after the last row, bit-identical coordinates part by part (unclosed rings closed, boxes as 5-vertex rectangles), ints equal, strings equal, floats within 1e-10. Non-trivial = files with >= 2 records or >= 2 parts."
 	tmpRoot = "/dev/shm"
 	if st, err := os.Stat(tmpRoot); err != nil || !st.IsDir() {
 		tmpRoot = os.TempDir()
